@@ -152,7 +152,14 @@ impl<'a, R: BufRead + Seek> BLF2DltMsgIterator<'a, R> {
                         let info_msgs = self.process_metadata(&app_text.to_string());
                         self.msgs_deque.extend(info_msgs);
                     }
-                    let (noar, payload) = dlt_args!(app_text.to_string()).unwrap();
+                    // a dlt msg is limited to a len of u16::MAX: the text is cut to what fits
+                    // (type info, len and zero term. of the string argument need 7 bytes)
+                    let text = app_text.to_string();
+                    let mut text_len = text.len().min((u16::MAX - LEN_WO_PAYLOAD) as usize - 7);
+                    while !text.is_char_boundary(text_len) {
+                        text_len -= 1;
+                    }
+                    let (noar, payload) = dlt_args!(&text[..text_len]).unwrap();
                     (
                         DltChar4::from_buf(b"ABLF"),
                         DltChar4::from_buf(b"AppT"),
